@@ -164,9 +164,22 @@ def run_shard(ctx):
         # digits, operators, parentheses and magnitude suffixes are not words: the line means the same under every configured language
         lang = 'en' if rng.random() < 0.6 else rng.choice(LANGS)
         res.count('lang:' + lang)
+        # one batch in ten runs on a calculator whose date patterns were replaced (set_date_rule) by month-name patterns only: there
+        # no quotient chain is a date, so day/month/year-like chains are judged as arithmetic too
+        month_dates_only = rng.random() < 0.1
+        if month_dates_only:
+            ops = [{'op': 'new_calc', 'c': 0, 'seg': True}] + gh.config_ops(cfg, 0, seg=False) + [
+                {'op': 'set_date_rule', 'lang': l_, 'patterns': ['{NUMBER:day} {MONTH:month} {NUMBER:year}', '{NUMBER:day} {MONTH:month}']} for l_ in LANGS]
+            cops = list(ops)
+            res.count('batches_with_month_name_date_patterns_only')
         for _ in range(60):
             tree = None
-            if rng.random() < 0.03:
+            if month_dates_only and rng.random() < 0.2:
+                a_, b_, c_ = rng.randint(1, 28), rng.randint(1, 12), rng.choice([1, 2, 4, 20, 2020])
+                tree = ('bin', '/', ('bin', '/', ('lit', str(a_), ''), ('lit', str(b_), '')), ('lit', str(c_), ''))
+                if rng.random() < 0.4:
+                    tree = ('bin', rng.choice('+-'), ('lit', '1', ''), tree)
+            elif rng.random() < 0.03:
                 # a quotient chain that is NOT a day/month/year date (month 13..40, or a day that does not exist) is plain arithmetic
                 a_, b_, c_ = rng.randint(1, 31), rng.randint(13, 40), rng.choice([1, 2, 3, 7, 20, 99, 2020, 2021])
                 tree = ('bin', '/', ('bin', '/', ('lit', str(a_), ''), ('lit', str(b_), '')), ('lit', str(c_), ''))
@@ -198,11 +211,13 @@ def run_shard(ctx):
             variants.append((rng.choice(ge.SPACINGS), rng.choice(VAR_NAMES)))
             for sp, assign in variants:
                 text, toks = render(tree, sep, sp, rng, grouped, assign)
-                if ge.date_like(toks, sep):
+                if ge.date_like(toks, sep) and not month_dates_only:
                     res.count('excluded_date_like')
                     continue
                 ops.append({'op': 'execute', 'lang': lang, 'text': text})
                 meta.append((len(ops) - 1, tree, want, text, sp, assign, cls))
+        if month_dates_only:
+            ops.append({'op': 'new_calc', 'c': 0})            # the next batch gets a default calculator again
         rs = drv.run(ops)
         for (idx, tree, want, text, sp, assign, cls) in meta:
             r = rs[idx]
